@@ -165,6 +165,28 @@ func TestCheck(t *testing.T) {
 	}
 }
 
+// detcheck re-executes a fixed fraction of the event lists (all of them with VERIF_DETCHECK=all)
+// and requires the same observation: an execution must be a function of its event list.
+func detcheck(t *testing.T, rep *core.Report, sc *Scenario, hist []Event, out Outcome) {
+	if os.Getenv("VERIF_DETCHECK") != "all" && rep.Executions%29 != 0 {
+		return
+	}
+	again := Run(t, sc, hist, true, 2)
+	rep.Rechecked++
+	a := fmt.Sprint(out.Key, out.Converged, out.Class, out.Containment, out.Problems)
+	b := fmt.Sprint(again.Key, again.Converged, again.Class, again.Containment, again.Problems)
+	if a != b {
+		rep.Outcome("recheck-differs")
+		if rep.Extra == nil {
+			rep.Extra = map[string]any{}
+		}
+		l, _ := rep.Extra["recheck_differs"].([]any)
+		if len(l) < 5 {
+			rep.Extra["recheck_differs"] = append(l, map[string]any{"scenario": sc.Name, "events": evs(hist), "first": a, "second": b})
+		}
+	}
+}
+
 func evs(es []Event) string {
 	var s []string
 	for _, e := range es {
@@ -203,6 +225,7 @@ func runC06(t *testing.T, env core.Env, rep *core.Report) {
 				mark(fmt.Sprintf("class=explore kind=%s events=%s", sc.Name, evs(hist)))
 				out := Run(t, sc, hist, true, 2)
 				rep.Executions++
+				detcheck(t, rep, sc, hist, out)
 				if seen[out.Key] {
 					continue
 				}
